@@ -19,6 +19,7 @@ complex step is discarded and the stencil with its measured error estimate decid
 that is correct but not complex-analytic can never raise an alarm).
 """
 import itertools
+import math
 import numpy as np
 
 # module-level import: done once in the runner before the workers are forked
@@ -309,6 +310,20 @@ def check(case):
             illc += ill
             nontrivial |= nt
             states += 1
+        # nearly (but not exactly) unstretched states |Gamma| = |Gamma0| (1 + eps), along Gamma0 and in a turned direction: no
+        # 'unstretched' short-cut with a tolerance may apply (seeded C12-h)
+        if np.any(G0):
+            kname, K = kappa_letters(seed, tier)[1]
+            c7, s7 = math.cos(0.7), math.sin(0.7)
+            Rz = np.array([[c7, -s7, 0.0], [s7, c7, 0.0], [0.0, 0.0, 1.0]])
+            for eps in (8e-6, -5e-6, 3e-7, 1e-9):
+                for dname, Gd in (("along", (1 + eps) * G0), ("turned", (1 + eps) * (Rz @ G0))):
+                    names = {"stiff": sname, "gamma": f"near_unstretched_{dname}_{eps:g}", "gamma0": g0name, "kappa": kname, "kappa0": k0name}
+                    n, nt, ill = _eval_point(mat, law, Ei, Fi, Gd, G0, K, K0, names, fails, stats)
+                    evals += n
+                    illc += ill
+                    nontrivial |= nt
+                    states += 1
         # the same object evaluated with argument BUFFERS that are overwritten in place between calls (as an element loop
         # does): results must depend on the values handed over, not on the identity of the arrays or on earlier calls
         bufG, bufG0, bufK, bufK0 = (np.empty(3) for _ in range(4))
